@@ -945,7 +945,10 @@ fn base_settings(rng: &mut Rng) -> DefaultSettings<f64> {
     let mut s = DefaultSettings::<f64>::default();
     s.verbose = rng.bool(0.8);
     s.max_iter = *rng.choose(&[0u32, 1, 2, 3, 5, 8, 50, 200]);
-    s.time_limit = *rng.choose(&[f64::INFINITY, f64::INFINITY, f64::INFINITY, 0.0, 1e-12, 1e3]);
+    // finite limits far beyond any run count as "extreme but finite magnitudes" too (every
+    // place that formats or converts the limit must cope with them)
+    s.time_limit = *rng.choose(&[f64::INFINITY, f64::INFINITY, f64::INFINITY, 0.0, 1e-12, 1e3,
+        1e19, 1e20, 1e300, f64::MAX]);
     s.equilibrate_enable = rng.bool(0.8);
     s.presolve_enable = rng.bool(0.8);
     if rng.bool(0.15) {
